@@ -126,7 +126,9 @@ class Enclose:
                         elif short in ('loc', 'location', 'common', 'as_ref', 'deref', 'clone', 'dupe', 'unwrap', 'first', 'last',
                                        'into_iter', 'as_mut', 'pop', 'expect', 'unwrap_or', 'iter', 'get', 'map', 'collect',
                                        'collect_vec', 'rev', 'cloned', 'copied', 'chain', 'to_vec', 'filter', 'take', 'skip',
-                                       'as_slice', 'as_mut_slice', 'iter_mut', 'unwrap_or_default') and t[3]:
+                                       'as_slice', 'as_mut_slice', 'iter_mut', 'unwrap_or_default', 'map_or', 'map_or_else',
+                                       'unwrap_or_else', 'and_then', 'or_else', 'then', 'then_some', 'or', 'zip', 'find',
+                                       'find_map', 'filter_map', 'flat_map', 'fold', 'min', 'max', 'next', 'peekable') and t[3]:
                             inner = set()
                             for o in t[3]:
                                 inner |= of_op(o, d[0])
@@ -439,6 +441,8 @@ def run_result_loc(prog, tier, repo):
                 what = 'a computed location'
                 if o[0] in ('c', 'm'):
                     r, p = operand_root(b, o)
+                    from ..dataflow import through_capture
+                    _pb, r, p = through_capture(prog, b, r, p)      # `cond.then(|| TypedName(id.loc, ..))`: look in the parent
                     fs = [e for e in p if e[0] == 'f']
                     if fs:
                         last = fs[-1]
